@@ -2,6 +2,10 @@ package lens
 
 import (
 	"context"
+	"crypto/x509"
+	"encoding/pem"
+	"os"
+	"path/filepath"
 	"errors"
 	"fmt"
 	"io"
@@ -64,7 +68,7 @@ func (c07) Gen(r *rand.Rand, tier string, idx int) *core.Plan {
 		}
 		exp := core.Pick(r, int64(0), 1, 2, 3600, 86400*365)
 		p.Ops = append(p.Ops, core.Op{Kind: "roundtrip", I: []int64{int64(r.IntN(2)), key, int64(r.IntN(2)), size, exp, int64(r.IntN(1000)), int64(r.IntN(4)),
-			int64(core.Pick(r, 0, 0, 1, 2)), int64(core.Pick(r, 0, 0, 1, 1, 2, 3, 4, 5, 6)), int64(r.IntN(1001)), int64(r.IntN(2)), int64(r.IntN(2)), int64(r.IntN(4)), int64(r.IntN(1000))}})
+			int64(core.Pick(r, 0, 0, 1, 2, 3)), int64(core.Pick(r, 0, 0, 1, 1, 2, 3, 4, 5, 6)), int64(r.IntN(1001)), int64(r.IntN(2)), int64(r.IntN(2)), int64(r.IntN(4)), int64(r.IntN(1000))}})
 	}
 	return p
 }
@@ -164,6 +168,22 @@ func (l c07) Exec(env *core.Env) *core.Result {
 			switch signerKind {
 			case 0:
 				sgn = world.NewSigner(chain)
+			case 3:
+				// the file-based signer: key and certificate chain as PEM files
+				keyPath, certPath := filepath.Join(env.Dir, fmt.Sprintf("k%d.key", oi)), filepath.Join(env.Dir, fmt.Sprintf("k%d.crt", oi))
+				kb, err := x509.MarshalPKCS8PrivateKey(chain.Leaf().Key)
+				if err != nil {
+					res.Violate("HARNESS/key", "", "%v", err)
+					return
+				}
+				os.WriteFile(keyPath, pem.EncodeToMemory(&pem.Block{Type: "PRIVATE KEY", Bytes: kb}), 0600)
+				os.WriteFile(certPath, world.PEM(chain.X509()...), 0644)
+				fs, err := signer.NewGenericSignerFromFiles(keyPath, certPath)
+				if err != nil {
+					res.Violate("C07/file-signer-refused-valid-files", key, "NewGenericSignerFromFiles: %v", err)
+					continue
+				}
+				sgn = fs
 			default:
 				pl := &world.SignPlugin{Name: "simsign", Chain: chain, Envelope: signerKind == 2}
 				ps, err := signer.NewPluginSigner(pl, "key-1", map[string]string{"a": "b"})
